@@ -363,3 +363,29 @@ Proof.
   intros Ha. induction Ha as [|[k0 [c0 v0]] a Hx _ IH]; cbn [visit map snd]; [reflexivity|].
   cbn [snd] in Hx. unfold do_walk at 1. rewrite Hx. now rewrite IH.
 Qed.
+
+(** ** What a walk shows is the same whatever the callback does
+
+    Callbacks are modelled as functions of the entry they are shown.  The
+    list of entries a backend shows does not depend on the callback: it is the
+    list the reference map determines (all live entries / those of the class,
+    in key order, the window cut out), so a callback that keeps state between
+    entries (stop after the third, ...) sees the same sequence on every
+    backend. *)
+Lemma backend_walks_exact step t f c off n desc :
+  step_refines step -> nodupk t -> off < two63 -> n < two63 ->
+  snd (step t (BWalk f)) = walk_result f (abs t) /\
+  snd (step t (BWalkClass c f)) = walk_result f (filter (has_class c) (abs t)) /\
+  snd (step t (BWalkPartial off n desc f)) = walk_result f (window off n (dir desc (abs t))) /\
+  snd (step t (BWalkPartialClass c off n desc f))
+  = walk_result f (window off n (dir desc (filter (has_class c) (abs t)))).
+Proof.
+  intros Hs Hn Ho Hlim.
+  assert ((off <? two63) && (n <? two63) = true) as Hok.
+  { apply andb_true_intro. split; now apply N.ltb_lt. }
+  repeat split.
+  - destruct (Hs t (BWalk f) Hn eq_refl) as (_ & _ & H). now rewrite H.
+  - destruct (Hs t (BWalkClass c f) Hn eq_refl) as (_ & _ & H). now rewrite H.
+  - destruct (Hs t (BWalkPartial off n desc f) Hn Hok) as (_ & _ & H). now rewrite H.
+  - destruct (Hs t (BWalkPartialClass c off n desc f) Hn Hok) as (_ & _ & H). now rewrite H.
+Qed.
